@@ -37,7 +37,8 @@ def sample_positions(rep, salt, n, plies):
 
 def check_c12(rep, tier):
     r = core.rng(rep.seed, "C12b")
-    corpus = ["4k3/8/8/2Pp4/8/8/2P5/4K3 w - d6 0 1", "4k3/P7/8/8/8/8/8/4K3 w - - 0 1",
+    corpus = ["4k3/8/8/2Pp4/8/8/2P5/4K3 w - d6 0 1", "4k3/8/8/2P5/2pP4/8/8/4K3 b - d3 0 1",
+              "4k3/8/8/2Pp4/2p5/8/8/4K3 w - d6 0 1", "4k3/P7/8/8/8/8/8/4K3 w - - 0 1",
               "r3k2r/8/8/8/8/8/8/R3K2R w KQkq - 0 1", "r3k2r/8/8/8/8/8/8/R3K2R b KQkq - 0 1",
               "4k3/8/8/8/pP6/8/8/4K3 b - b3 0 1", "n1n1k3/1P6/8/8/8/8/6p1/4K1N1 w - - 0 1"]
     fens = corpus + sample_positions(rep, "C12", 8 if tier == "quick" else 120, 20)
@@ -53,7 +54,7 @@ def check_c12(rep, tier):
         legal_texts.append([d.split(":")[0] for d in ml.split(" ", 1)[1].split(",")] if ml.split(" ", 1)[1:] and ml.split(" ", 1)[1] else [])
     for fi, f in enumerate(fens):
         ops = ["new " + f, "moves c"]
-        full = tier == "thorough" or fi < 3
+        full = tier == "thorough" or fi < 4
         if full:
             strs = [a + b + s for a in squares for b in squares for s in ("", "q")]
             strs += [a + b + s for a in squares for b in squares for s in r.sample(suffixes_all[2:], 1)]
@@ -111,6 +112,9 @@ def check_c12(rep, tier):
                         rep.violation("impl-vs-spec", f"reading back `{s}` does not give the same move @ {f4}", f"{out} vs {by_text[s]}", replay_ops=[case[0], op])
                 else:
                     kinds["parsed" if out != ["none"] else "rejected_by_parser"] += 1
+                    if out != ["none"] and out and out[0].split(":")[0] != s:
+                        rep.violation("impl-vs-spec", f"the reader takes `{s}` for the move `{out[0].split(':')[0]}` @ {f4}",
+                                      f"parse result {out}", replay_ops=[case[0], op])
             elif op.startswith("position fen "):
                 s = op.rsplit(" moves ", 1)[1].strip()
                 stats["position_commands"] += 1
